@@ -163,7 +163,8 @@ def replay(case):
 
 
 def _strategy():
-    return lifecycle_cases(statuses_full=True, respawn_false=True)
+    return lifecycle_cases(statuses_full=True, respawn_false=True,
+                           kill_cmd=True)
 
 
 def plan(tier, seed):
